@@ -37,17 +37,30 @@ pub struct Sym {
     pub invalid_twin: bool,
 }
 
+/// shard processes of the SIM engine bind these addresses for real: each
+/// shard gets its own (the XS checks run unsharded and see the base values)
+fn shard() -> Option<u16> {
+    std::env::var("VERIF_SHARD").ok().and_then(|s| s.split('/').next().and_then(|i| i.parse::<u16>().ok()))
+}
 pub fn a4() -> SocketAddress {
-    SocketAddress::new_v4(127, 0, 0, 1, 8080)
+    match shard() {
+        None => SocketAddress::new_v4(127, 0, 0, 1, 8080),
+        Some(s) => SocketAddress::new_v4(127, 10 + s as u8, 0, 1, 8080),
+    }
 }
 pub fn a6() -> SocketAddress {
-    "[::1]:8443".parse::<std::net::SocketAddr>().unwrap().into()
+    let port = 8443 + shard().unwrap_or(0);
+    format!("[::1]:{port}").parse::<std::net::SocketAddr>().unwrap().into()
 }
 pub fn b1() -> SocketAddress {
-    SocketAddress::new_v4(127, 0, 0, 1, 1001)
+    match shard() {
+        None => SocketAddress::new_v4(127, 0, 0, 1, 1001),
+        Some(s) => SocketAddress::new_v4(127, 10 + s as u8, 0, 2, 1001),
+    }
 }
 pub fn b2() -> SocketAddress {
-    "[::1]:1002".parse::<std::net::SocketAddr>().unwrap().into()
+    let port = 1002 + shard().unwrap_or(0);
+    format!("[::1]:{port}").parse::<std::net::SocketAddr>().unwrap().into()
 }
 
 pub fn fp(pem: &str) -> String {
